@@ -184,6 +184,10 @@ func ext۰reflect۰Zero(fr *frame, args []value) value {
 }
 
 func reflectKind(t types.Type) reflect.Kind {
+	if t == errorType {
+		// an error made by a stub (fmt.Errorf, errors.New ...): natively a pointer to some error struct
+		return reflect.Ptr
+	}
 	switch t := t.(type) {
 	case *types.Named, *types.Alias:
 		return reflectKind(t.Underlying())
